@@ -203,6 +203,9 @@ class SqlImpl(TableImpl):
     # some backends need to do casting to ensure the correct type
     @classmethod
     def compile_lit(cls, lit: LiteralCol):
+        if lit.val is None and not isinstance(types.without_const(lit.dtype()), types.NullType):
+            # a typed null literal `pdt.lit(None, <type>)`
+            return sqa.cast(sqa.null(), cls.sqa_type(lit.dtype()))
         if types.without_const(lit.dtype()).is_float():
             if math.isnan(lit.val):
                 return cls.nan()
